@@ -139,36 +139,29 @@ func (node *PFCPNode) Serve() {
 				logger.PfcpLog.Errorln("error closing PFCPNode conn", err)
 			}
 
-			// Clear out the remaining pconn completions
-		clearLoop:
+			// Wait for every PFCPConn to complete its shutdown. Each connection in the map
+			// reports on pConnDone exactly once, after it has removed its sessions from the
+			// datapath; the channel is never closed because connections may still send on it.
 			for {
-				select {
-				case rAddr, ok := <-node.pConnDone:
-					{
-						if !ok {
-							// channel is closed, break
-							break clearLoop
-						}
-						node.pConns.Delete(rAddr)
-						logger.PfcpLog.Infoln("removed connection to", rAddr)
-					}
-				default:
-					// nothing to read from channel
-					break clearLoop
-				}
-			}
+				remaining := 0
 
-			verifPoint("node.stop.afterDrain")
+				node.pConns.Range(func(_, _ interface{}) bool {
+					remaining++
+					return true
+				})
 
-			if len(node.pConnDone) > 0 {
-				for rAddr := range node.pConnDone {
-					node.pConns.Delete(rAddr)
-					logger.PfcpLog.Infoln("removed connection to", rAddr)
+				if remaining == 0 {
+					break
 				}
+
+				verifPoint("node.stop.afterDrain")
+
+				rAddr := <-node.pConnDone
+				node.pConns.Delete(rAddr)
+				logger.PfcpLog.Infoln("removed connection to", rAddr)
 			}
 
 			verifPoint("node.stop.beforeClose")
-			close(node.pConnDone)
 			logger.PfcpLog.Infoln("done waiting for PFCPConn completions")
 
 			verifPoint("node.stop.beforeExit")
